@@ -185,14 +185,13 @@ func alphabet(g geom, blocks []int, below, above int, domain string) []letter {
 
 // runner executes letters on one allocator instance.
 type allocRun struct {
-	g        geom
-	a        allocators.Allocator
-	t        *Trace
-	r        *rand.Rand
-	domain   string
-	outst    map[int]bool // blocks returned by a successful Allocate and not successfully freed since
-	hiRank   map[int]int  // see lab()
-	lastReal int          // the real block number of the last in-pool result
+	g      geom
+	a      allocators.Allocator
+	t      *Trace
+	r      *rand.Rand
+	domain string
+	outst  map[int]bool // blocks returned by a successful Allocate and not successfully freed since
+	hiRank map[int]int  // see lab()
 }
 
 func allocErrClass(err error) string {
@@ -351,10 +350,17 @@ func (x *allocRun) blkLabel(l letter, n net.IPNet) int {
 }
 
 func (x *allocRun) abstractRes(n net.IPNet, err error) Ev {
+	e, _ := x.abstractRes2(n, err)
+	return e
+}
+
+// abstractRes2 also returns the real block number (-1: none); nothing of the run is written (concurrent callers share a run)
+func (x *allocRun) abstractRes2(n net.IPNet, err error) (Ev, int) {
+	real := -1
 	g := x.g
 	res := Ev{"ok": err == nil, "b": -1, "len": -1, "bits": -1, "aligned": false, "inpool": false, "err": allocErrClass(err)}
 	if err != nil {
-		return res
+		return res, real
 	}
 	ones, bits := n.Mask.Size()
 	res["len"], res["bits"] = ones, bits
@@ -366,19 +372,19 @@ func (x *allocRun) abstractRes(n net.IPNet, err error) Ev {
 		v = nil
 	}
 	if v == nil {
-		return res
+		return res, real
 	}
 	rel := new(big.Int).Sub(v, g.base)
 	if rel.Sign() >= 0 {
 		q, m := new(big.Int).DivMod(rel, g.bsize, new(big.Int))
 		if q.Cmp(big.NewInt(int64(g.n))) < 0 {
 			res["inpool"] = true
-			x.lastReal = int(q.Int64())
-			res["b"] = x.lab(x.lastReal)
+			real = int(q.Int64())
+			res["b"] = x.lab(real)
 			res["aligned"] = m.Sign() == 0
 		}
 	}
-	return res
+	return res, real
 }
 
 func (x *allocRun) hintAbsL(l letter, n net.IPNet) Ev {
@@ -413,9 +419,9 @@ func (x *allocRun) do(l letter) bool {
 			}()
 			n, err = x.a.Allocate(hn)
 		}()
-		res := x.abstractRes(n, err)
+		res, real := x.abstractRes2(n, err)
 		if res["ok"].(bool) && res["inpool"].(bool) {
-			x.outst[x.lastReal] = true
+			x.outst[real] = true
 		}
 		x.t.Emit(Ev{"ev": "alloc", "hint": x.hintAbsL(l, hn), "res": res})
 		return true
